@@ -6,6 +6,7 @@ import (
 	"github.com/glebziz/fs_db/verifh/enum"
 	"github.com/glebziz/fs_db/verifh/hk"
 	_ "github.com/glebziz/fs_db/verifh/multi"
+	"github.com/glebziz/fs_db/verifh/seq"
 )
 
 func init() { table["C05"] = c05 }
@@ -33,7 +34,11 @@ func c05(tier string) int {
 			{Family: "multi", Params: "lives=3,writes=-.S.SS.SD,tx=1"},
 		}
 	}
-	return enumCheck("C05", tier, 90*time.Second, 10*time.Minute, plans,
-		"the full product of: 2-3 process lifetimes x open order of two databases in one process {A, B, AB, BA, A then B after A's writes} x write pattern per database and lifetime x abandoned open transaction x Close/Open inside a lifetime; every database is read (Get, GetKeys) after every open and every write and once more in a final process; per-database map model: committed state survives, open transactions vanish, every later acknowledged write wins immediately and after every later reopen",
+	splans := []seq.Plan{{Family: "iso-restart", Params: "keys=1,slots=2,levels=RC.RR", From: 1, To: 5}}
+	if tier == "thorough" {
+		splans = []seq.Plan{{Family: "iso-restart", Params: "keys=1,slots=2", From: 1, To: 6}, {Family: "iso-restart", Params: "keys=2,slots=2,levels=RC.RR", From: 1, To: 5}}
+	}
+	return seqEnumCheck("C05", tier, 120*time.Second, 12*time.Minute, splans, plans,
+		"the full product of: 2-3 process lifetimes x open order of two databases in one process {A, B, AB, BA, A then B after A's writes} x write pattern per database and lifetime x abandoned open transaction x Close/Open inside a lifetime; every database is read (Get, GetKeys) after every open and every write and once more in a final process; per-database map model: committed state survives, open transactions vanish, every later acknowledged write wins immediately and after every later reopen; plus (family iso-restart) every sequential interleaving of transactions and autocommit writes to the stated depth followed by Close, a new process, Open and a full read — twice",
 		append([]string{"a process lifetime ends with a clean Close of every database; the new process is emulated by re-initialising all package-level variables (generated VerifResetGlobals)"}, seqAssumptions[1:]...))
 }
